@@ -218,6 +218,31 @@ STRIP = uf('py_strip', ['str'], 'str', lambda s: s.strip(), axiom=(
     _ax_strip, lambda a, r: not r.startswith(' ') and not r.endswith(' ') and r in a[0] and
     (not _re.fullmatch(r'[!-~]*', a[0]) or r == a[0]), [[''], [' a '], ['a b'], ['  '], ['\tx\n']]))
 TITLE = uf('py_title', ['str'], 'str', lambda s: s.title())
+def _char_class_uf(name, method, ascii_re_src):
+    """str.isdigit() & co.: Unicode-aware in CPython; exact here on ASCII texts (a non-empty text over the ASCII class), uninterpreted elsewhere -
+    counter-models are confirmed natively anyway"""
+    def ax(args, res):
+        cls = ascii_re_src()
+        s = args[0].t
+        return z3.And(z3.Implies(res.t, z3.Length(s) > 0),
+                      z3.Implies(z3.InRe(s, z3.Star(_ASCII)), res.t == z3.InRe(s, z3.Plus(cls))))
+
+    def nat(a, r):
+        s = a[0]
+        if r and not s:
+            return False
+        if s.isascii():
+            return r == getattr(s, method)()
+        return True
+    return uf(name, ['str'], 'bool', lambda s: getattr(s, method)(), axiom=(
+        f'str.{method}(): false on the empty text; on ASCII texts true exactly for a non-empty text over the ASCII class', ax, nat,
+        [[''], ['0'], ['12'], ['1a'], ['a'], ['AZ'], [' '], ['\t\n'], ['a1_'], ['é'], ['²'], ['A b']]))
+
+
+ISDIGIT = _char_class_uf('py_isdigit', 'isdigit', lambda: z3.Range('0', '9'))
+ISALPHA = _char_class_uf('py_isalpha', 'isalpha', lambda: z3.Union(z3.Range('a', 'z'), z3.Range('A', 'Z')))
+ISALNUM = _char_class_uf('py_isalnum', 'isalnum', lambda: z3.Union(z3.Range('0', '9'), z3.Range('a', 'z'), z3.Range('A', 'Z')))
+ISSPACE = _char_class_uf('py_isspace', 'isspace', lambda: z3.Union(z3.Re(' '), z3.Range('\t', '\r'), z3.Range('\x1c', '\x1f')))
 CASEFOLD = uf('py_casefold', ['str'], 'str', lambda s: s.casefold())        # NOT lower(): 'ß'.casefold() == 'ss'
 STR_REAL = uf('py_str_float', ['real'], 'str', lambda x: str(float(x)))
 REPR_STR = uf('py_repr_str', ['str'], 'str', lambda s: repr(s))
@@ -242,7 +267,11 @@ INT_OK = uf('py_int_parses', ['str', 'int'], 'bool', _safe(lambda s, b: (int(s, 
 INT_OF = uf('py_int_of_str', ['str', 'int'], 'int', _safe(lambda s, b: int(s, b), 0), axiom=(
     'a string of 1..10 digits valid in base b (2, 8, 10, 16) parses, to 0 <= int(s, b) < b^10', _ax_int_of, _nat_int_of,
     [['0', 2], ['1111111111', 2], ['7777777777', 8], ['FFFFFFFFFF', 16], ['ffffffffff', 16], ['9999999999', 10], ['', 2], ['12', 2]]))
-FLOAT_OK = uf('py_float_parses', ['str'], 'bool', _safe(lambda s: (float(s), True)[1], False))
+FLOAT_OK = uf('py_float_parses', ['str'], 'bool', _safe(lambda s: (float(s), True)[1], False), axiom=(
+    'a text that float() accepts contains none of the characters ! $ : (what marks a sheet-qualified, absolute or range reference)',
+    lambda args, res: z3.Implies(res.t, z3.Not(z3.Or(*[z3.Contains(args[0].t, z3.StringVal(c)) for c in '!$:']))),
+    lambda a, r: (not r) or not any(c in a[0] for c in '!$:'),
+    [['1'], ['2023!B2'], ['1e5'], ['$A$1'], ['1:2'], ['nan'], [' 12 '], ['1_000'], ['Sheet1!A1'], ['.5']]))
 FLOAT_OF = uf('py_float_of_str', ['str'], 'real', _safe(lambda s: float(s), 0.0))
 STR_INT = uf('py_str_int', ['int'], 'str', lambda i: str(i), axiom=(
     'str(i) matches -?[0-9]+, starts with "-" exactly when i < 0, and int(str(i)) == i', _ax_str_int,
@@ -615,6 +644,7 @@ def _late_split_result():
 SYM_STR_METHODS = {
     'upper': lambda it, s: UPPER(s), 'lower': lambda it, s: LOWER(s), 'strip': lambda it, s, *a: _strip(s, a),
     'title': lambda it, s: TITLE(s), 'casefold': lambda it, s: CASEFOLD(s),
+    'isdigit': lambda it, s: ISDIGIT(s), 'isalpha': lambda it, s: ISALPHA(s), 'isalnum': lambda it, s: ISALNUM(s), 'isspace': lambda it, s: ISSPACE(s),
     'find': str_find, 'index': str_index, 'startswith': str_startswith, 'endswith': str_endswith,
     'replace': str_replace, 'join': str_join, 'split': str_split, 'rsplit': str_rsplit, 'partition': str_partition, 'rpartition': str_rpartition,
     'zfill': lambda it, s, n: str_zfill(it, s, n),
